@@ -318,3 +318,115 @@ def unsupported_field_battery(v: Verdict):
                                         {"battery": "UNSUPPORTED-FIELD", "class_kind": kind, "attribute": f"u: {'NotRequired / defaulted ' if optional else ''}{sname} of a {uname}",
                                          "payload": repr(p), "detailed": repr(res[True]), "fast": repr(res[False])})
     v.coverage["unsupported_field_battery"] = hist
+
+
+# ------------------------------------------------------------------------------------ hooks the user builds with make_dict_*_fn
+
+def _ub_classes():
+    """attrs classes with private / explicitly aliased / init=False attributes (with and without defaults)"""
+    A = attrs.make_class("UBA", {"name": attrs.field(type=str), "_secret": attrs.field(type=int), "retries": attrs.field(type=int, default=3),
+                                  "_state": attrs.field(type=str, default="new", init=False),
+                                  "_seen": attrs.field(type=int, init=False, default=0),
+                                  "shown": attrs.field(type=int, default=1, alias="display")})
+    return [("private / aliased / init=False attributes", A,
+             lambda: _ub_set(A(name="n", secret=5, retries=4, display=9), _state="running", _seen=7))]
+
+
+def _ub_set(x, **kw):
+    for k, val in kw.items():
+        object.__setattr__(x, k, val)
+    return x
+
+
+def user_built_pair_battery(v: Verdict):
+    """C01 through hooks the USER builds (docs/customizing.md): make_dict_unstructure_fn / make_dict_structure_fn called with the same
+    options -- every combination of _cattrs_use_alias, _cattrs_include_init_false, an override(rename=...) and an override(omit=False)
+    on an init=False attribute -- registered on the converter: structure(unstructure(x, T), T) gives back x, init=False attributes
+    included whenever they are included in both hooks; both converter classes, both validation modes."""
+    import itertools
+    from cattrs import BaseConverter, Converter
+    from cattrs.gen import make_dict_structure_fn, make_dict_unstructure_fn, override
+    hist = {"pairs": 0, "roundtrips": 0}
+    for cname, cl, mk in _ub_classes():
+        for use_alias, incl, rename, omit_false in itertools.product((False, True), (False, True), (False, True), (False, True)):
+            for cls in (Converter, BaseConverter):
+                for dv in (True, False):
+                    conv = cls(detailed_validation=dv)
+                    ov = {}
+                    if rename:
+                        ov["retries"] = override(rename="tries")
+                    if omit_false:
+                        ov["_seen"] = override(omit=False)
+                    kw = {"_cattrs_use_alias": use_alias, "_cattrs_include_init_false": incl}
+                    desc = {"battery": "USER-BUILT PAIR", "class": cname, "converter": cls.__name__, "detailed_validation": dv,
+                            "options": {**kw, "overrides": {k: ("rename='tries'" if k == "retries" else "omit=False") for k in ov}}}
+                    try:
+                        un = make_dict_unstructure_fn(cl, conv, **kw, **ov)
+                        st = make_dict_structure_fn(cl, conv, **kw, **ov)
+                    except Exception as e:      # noqa
+                        continue
+                    conv.register_unstructure_hook(cl, un)
+                    conv.register_structure_hook(cl, st)
+                    hist["pairs"] += 1
+                    x = mk()
+                    v.count(repr(("ubpair", desc)), True)
+                    try:
+                        u = conv.unstructure(x)
+                        back = conv.structure(u, cl)
+                    except Exception as e:      # noqa
+                        v.violation("round trip through a pair of user-built hooks raised", {**desc, "value": repr(x), "raised": repr(e)[:300]})
+                        continue
+                    hist["roundtrips"] += 1
+                    included = {a.name for a in attrs.fields(cl) if a.init or incl or (omit_false and a.name == "_seen")}
+                    diff = [a.name for a in attrs.fields(cl) if a.name in included and getattr(back, a.name) != getattr(x, a.name)]
+                    if type(back) is not cl or diff:
+                        v.violation("round trip: structure(unstructure(x, T), T) differs from x (value or class)",
+                                    {**desc, "value": repr(x), "unstructured": repr(u), "back": repr(back), "attributes_lost": diff})
+    v.coverage["user_built_pair_battery"] = hist
+
+
+def initfalse_fault_battery(v: Verdict):
+    """C05 through user-built hooks that INCLUDE init=False attributes (_cattrs_include_init_false=True or override(omit=False)), detailed
+    validation: faults (a leaf its type cannot accept) injected into init attributes, init=False attributes, or both; at top level and
+    inside a list.  transform_error reports exactly one message per fault, at the fault's path -- also when every fault sits in an
+    init=False attribute (those are assigned after the instance is created)."""
+    import itertools
+    from cattrs import Converter, transform_error
+    from cattrs.gen import make_dict_structure_fn, override
+    hist = {"cases": 0, "faults": 0}
+    cl = attrs.make_class("IFA", {"a": attrs.field(type=int), "b": attrs.field(type=int, default=0),
+                                  "p": attrs.field(type=int, init=False, default=0), "q": attrs.field(type=int, init=False, default=1)})
+    for mode in ("_cattrs_include_init_false=True", "override(omit=False) on p and q"):
+        for faulty in itertools.chain.from_iterable(itertools.combinations("abpq", r) for r in range(0, 5)):
+            for nested in (False, True):
+                conv = Converter(detailed_validation=True)
+                kw = {"_cattrs_include_init_false": True} if mode.startswith("_cattrs") else {"p": override(omit=False), "q": override(omit=False)}
+                hook = make_dict_structure_fn(cl, conv, **kw)
+                conv.register_structure_hook(cl, hook)
+                payload = {k: ("zz" if k in faulty else 5) for k in "abpq"}
+                T_, o, prefix = (List[cl], [dict(payload, a=1, b=2, p=3, q=4), payload], "$[1]") if nested else (cl, payload, "$")
+                hist["cases"] += 1
+                hist["faults"] += len(faulty)
+                desc = {"battery": "INIT-FALSE FAULTS", "hook": f"make_dict_structure_fn(cl, conv, {mode}), registered for the class", "type": "List[IFA]" if nested else "IFA",
+                        "class": "IFA(a: int, b: int = 0, p: int = field(init=False, default=0), q: int = field(init=False, default=1))", "payload": repr(o),
+                        "faults": [f"{prefix}.{k}" for k in faulty]}
+                v.count(repr(("iff", desc)), True)
+                try:
+                    r = conv.structure(o, T_)
+                    got = None
+                except Exception as e:      # noqa
+                    try:
+                        got = sorted(m.rsplit(" @ ", 1)[1] for m in transform_error(e))
+                    except Exception as e2:      # noqa
+                        got = ["<transform_error raised %r>" % (e2,)]
+                want = sorted(f"{prefix}.{k}" for k in faulty)
+                if (got or []) != want:
+                    rp = {**desc, "reported_paths": got if got is not None else "no error was raised", "expected_paths": want}
+                    init_only = sorted(f"{prefix}.{k}" for k in faulty if k in "ab")
+                    if init_only and len(init_only) < len(want) and got == init_only:
+                        # finding F45: the init=False attributes are structured AFTER the instance is created, which is never reached
+                        # when an __init__ attribute is faulty
+                        v.finding("F45", "faults in included init=False attributes go unreported when an __init__ attribute is faulty too", rp)
+                    else:
+                        v.violation("transform_error does not report exactly the fault paths (one leaf error per fault, none for valid siblings)", rp)
+    v.coverage["initfalse_fault_battery"] = hist
